@@ -15,6 +15,9 @@ CONSTANTS
   ROSets = {{}, {2}}
   TickSizes = {1, 2}
   MaxTicks = 2
+  Filter = "none"
+  NoLockSet = {FALSE}
+  TickInList = FALSE
   POR = FALSE
   MaxHist = 100
 INVARIANTS Emit
